@@ -22,7 +22,7 @@ fn next_up(x: f32, k: i64) -> f32 {
 
 pub fn run(tier: Tier) -> Report {
     let rep = Report::new("C19", tier);
-    rep.set_rule("complete grids: (1) ltwh->universal->ltwh over magnitudes^4 (confidences 1, 0, .3, .5; by reference, by value, through the ltwh constructors); (2) polygon/area/centre/radius of every box of the size x angle menu; (2b) every sequence of <= 4 (thorough 5) operations from {gen_vertices, rotate_mut x2, set xc / yc / height / aspect, angle=None, clone, rotate} on 3 start boxes: the polygon cached by gen_vertices() on a rotated box and the result of get_vertices() are the polygon of the box as it is at that moment; (3) every coordinate x base x delta x both argument orders for both box types, and every subset of 2..5 coordinates moved at once by .5 / .8 epsilon (one of them optionally by 1.5 epsilon); (4) normalize_angle over f32 bit patterns in [-1000,1000] (thorough: every pattern; quick: stride + neighbourhoods of multiples of 2*pi). A case is non-trivial when it is not the identity comparison / zero angle.");
+    rep.set_rule("complete grids: (1) ltwh->universal->ltwh over magnitudes^4 (confidences 1, 0, .3, .5; by reference, by value, through the ltwh constructors); (2) polygon/area/centre/radius of every box of the size x angle menu; (2b) every sequence of <= 4 (thorough 5) operations from {gen_vertices, rotate_mut x2, set xc / yc / height / aspect, angle=None, clone, rotate} on 3 start boxes: the polygon cached by gen_vertices() on a rotated box and the result of get_vertices() are the polygon of the box as it is at that moment, and gen_vertices() leaves every field of the box as it was; (3) every coordinate x base x delta x both argument orders for both box types, and every subset of 2..5 coordinates moved at once by .5 / .8 epsilon (one of them optionally by 1.5 epsilon); (4) normalize_angle over f32 bit patterns in [-1000,1000] (thorough: every pattern; quick: stride + neighbourhoods of multiples of 2*pi). A case is non-trivial when it is not the identity comparison / zero angle.");
     rep.assume("reference arithmetic in f64; decisions asserted only outside a rounding margin");
 
     // (1) round trip
@@ -272,7 +272,14 @@ pub fn run(tier: Tier) -> Report {
                         word.push(op);
                         match op {
                             COp::Gen => {
+                                let before = (b.xc.to_bits(), b.yc.to_bits(), b.angle.map(f32::to_bits), b.aspect.to_bits(), b.height.to_bits(), b.confidence.to_bits());
                                 b.gen_vertices();
+                                // generating the polygon is not a change of the box: every field is what it was (an
+                                // axis-aligned box stays one, so it can still be converted back to its ltwh form)
+                                let after = (b.xc.to_bits(), b.yc.to_bits(), b.angle.map(f32::to_bits), b.aspect.to_bits(), b.height.to_bits(), b.confidence.to_bits());
+                                if before != after || (b.angle.is_none() && BoundingBox::try_from(&b).is_err()) {
+                                    rep.violation(Violation { key: "polygon/gen_vertices-changes-the-box".into(), what: format!("after {word:?} on start box {si}: fields before gen_vertices {before:?}, after {after:?}; conversion back to ltwh ok: {}", BoundingBox::try_from(&b).is_ok()), replay: json!({"part":"polygon-cache","start":si,"ops":format!("{word:?}")}) });
+                                }
                                 if b.angle.is_some() {
                                     if had_cache && dirty_since_gen {
                                         regen_after_change += 1;
